@@ -83,4 +83,13 @@ MCLists_perm == ListsOver(S3) \cup {AllMarker, <<>>, <<E("a", "A"), E("z", "A")>
 MCLists_perm_quick == {l \in ListsOver(S3) : Len(l) >= 2 /\ l[1].s # "c"} \cup {AllMarker, <<>>, <<E("a", "A"), E("z", "A")>>}
 \* three asymmetric records so that every permutation is visible in the result
 MCSeq_perm == {<<Row3(HET, HOM0, HOM0), Row3(HOM1, HET, HOM0), Row3(HOM1, HOM1, HET)>>}
+\* C12: four populations (hash-order dependence would show), two column orders, fixed asymmetric records
+Row4(w, x, y, z) == [gt |-> [s \in S4 |-> IF s = "a" THEN w ELSE IF s = "b" THEN x ELSE IF s = "c" THEN y ELSE z], bad |-> FALSE]
+Lists4 == {<<E("a", "A"), E("b", "B"), E("c", "C"), E("d", "D")>>, <<E("d", "D"), E("b", "B"), E("a", "A"), E("c", "C")>>,
+           <<E("a", "A"), E("b", "A"), E("c", "B"), E("d", U)>>, AllMarker}
+Orders4 == {<<"a", "b", "c", "d">>, <<"c", "a", "d", "b">>}
+MCSeq_c12 == {<<Row4(HET, HOM0, HOM0, HOM1), Row4(HOM1, HET, HOM0, HOM0), Row4(HOM1, HOM1, HET, MISS),
+               Row4(HOM0, HOM0, MULT, HET), Row4(HET, HET, HET, HET)>>,
+              <<Row4(HET, HOM1, HOM0, HOM0), Row4(HOM0, HOM0, HOM0, G1(1))>>,
+              <<>>}
 =============================================================================
